@@ -306,7 +306,8 @@ class IO:
         return out
 
     def op_reimport(self, sim, op):
-        if not self.exportable(sim, op.get("fmt")):
+        empty = sim.tracks.graph.number_of_nodes() == 0
+        if not self.exportable(sim, op.get("fmt")) and not (empty and op.get("allow_empty")):
             return None
         tr = sim.tracks
         fmt = op["fmt"]
@@ -314,7 +315,7 @@ class IO:
             fmt = "csv"
         d = self.fresh(f"reimport-{fmt}")
         wp = op.get("with_pos", True)
-        out = {"resolved": {"fmt": fmt, "with_pos": wp}, "tags": [fmt] + ([] if wp else ["no_pos_map"])}
+        out = {"resolved": {"fmt": fmt, "with_pos": wp}, "tags": [fmt] + ([] if wp else ["no_pos_map"]) + (["empty_solution"] if empty else [])}
         _, exc, seam = self._armed(sim, op, d, lambda dd: self._write(sim, fmt, dd), "w")
         if seam == "twin_failed":
             return None
